@@ -6,6 +6,7 @@ package main
 
 import (
 	"bufio"
+	"bytes"
 	"encoding/binary"
 	"encoding/json"
 	"fmt"
@@ -96,10 +97,21 @@ func runCompiled(c *C16Case, rec *bufio.Writer, tmp string, idx int) (res Result
 		fail("serialize", err.Error(), "")
 		return
 	}
+	dataCopy := append([]byte(nil), data...)
 	back, err := twig.DeserializeCompiledTemplate(data)
 	if err != nil {
 		fail("deserialize", err.Error(), "")
 		return
+	}
+	// the bytes handed out stay what they are when other templates are serialised afterwards
+	for k := 0; k < 3; k++ {
+		other := &twig.CompiledTemplate{Name: fmt.Sprintf("other%d", k), Source: strings.Repeat("zq", 40*(k+1)), LastModified: 7, CompileTime: 8, AST: []byte{1}}
+		if _, err := twig.SerializeCompiledTemplate(other); err != nil {
+			fail("serialize-other", err.Error(), "")
+		}
+	}
+	if !bytes.Equal(data, dataCopy) {
+		fail("earlier-bytes-changed", fmt.Sprintf("the %d bytes returned by SerializeCompiledTemplate changed after later Serialize calls", len(data)), "unchanged bytes")
 	}
 	if back.Name != name || back.Source != src || back.LastModified != lm || back.CompileTime != 12345 || string(back.AST) != string(ct.AST) {
 		fail("fields", fmt.Sprintf("name=%q lm=%d ct=%d len(source)=%d ast=%v", back.Name, back.LastModified, back.CompileTime, len(back.Source), back.AST),
